@@ -60,7 +60,7 @@ func {{ .RequestEncoder }}(encoder func(*http.Request) goahttp.Encoder) func(*ht
 			{{- end }}
 			v{{ if not (eq .Type.Name "string") }}raw{{ end }} := {{ if .FieldPointer }}*{{ end }}p.{{ .FieldName }}
 			{{- if not (eq .Type.Name "string" ) }}
-			{{ template "partial_client_type_conversion" (typeConversionData .Type .FieldType "vraw" "v") }}
+			{{ template "partial_client_type_conversion" (typeConversionData .Type .FieldType "v" "vraw") }}
 			{{- end }}
 			req.AddCookie(&http.Cookie{
 				Name: {{ printf "%q" .HTTPName }},
